@@ -10,7 +10,7 @@ use std::collections::HashMap;
 
 pub type PObs = (&'static str, Option<f64>);
 
-pub trait PairT: Clone + Send + Sync + 'static {
+pub trait PairT: Clone + Send + 'static {
     const NAME: &'static str;
     fn new() -> Self;
     fn default_() -> Self;
